@@ -176,7 +176,7 @@ fn battery_bye(p: &Bye, order: u64, bound: usize) {
             p.padding();
         }),
         ("Bye::ssrcs", &|| {
-            obs::drain_checked(|| p.ssrcs(), bound);
+            obs::drain_exercised(|| p.ssrcs(), bound);
         }),
         ("Bye::reason", &|| {
             p.reason();
@@ -230,7 +230,7 @@ fn battery_sr(p: &SenderReport, order: u64, bound: usize) {
             p.octet_count();
         }),
         ("SenderReport::report_blocks", &|| {
-            for b in obs::drain_checked(|| p.report_blocks(), bound) {
+            for b in obs::drain_exercised(|| p.report_blocks(), bound) {
                 battery_rb(&b);
             }
         }),
@@ -259,7 +259,7 @@ fn battery_rr(p: &ReceiverReport, order: u64, bound: usize) {
             p.ssrc();
         }),
         ("ReceiverReport::report_blocks", &|| {
-            for b in obs::drain_checked(|| p.report_blocks(), bound) {
+            for b in obs::drain_exercised(|| p.report_blocks(), bound) {
                 battery_rb(&b);
             }
         }),
@@ -352,7 +352,7 @@ macro_rules! battery_fb {
                 (concat!($t, "::parse_fci<Sli>"), &|| {
                     if let Ok(x) = p.parse_fci::<Sli>() {
                         st!(concat!($t, "::parse_fci<Sli>::lost_macroblocks"));
-                        obs::drain_checked(|| x.lost_macroblocks(), bound);
+                        obs::drain_exercised(|| x.lost_macroblocks(), bound);
                         let _ = format!("{x:?}");
                     }
                 }),
@@ -368,7 +368,7 @@ macro_rules! battery_fb {
                 (concat!($t, "::parse_fci<Fir>"), &|| {
                     if let Ok(x) = p.parse_fci::<Fir>() {
                         st!(concat!($t, "::parse_fci<Fir>::entries"));
-                        for e in obs::drain_checked(|| x.entries(), bound) {
+                        for e in obs::drain_exercised(|| x.entries(), bound) {
                             e.ssrc();
                             e.sequence();
                             let _ = format!("{e:?}");
@@ -544,6 +544,7 @@ pub fn check(ctx: &mut Ctx, input: &[u8]) {
     let data = exact(input);
     let b: &[u8] = &data;
     let _case = crate::watchdog::case_bytes("c01", b);
+    let _no_iter_assert = obs::no_iter_assert();
     let bound = obs::bound_for(b.len());
     let order = mix(fnv(b), ctx.seed);
     ctx.eval();
